@@ -31,7 +31,8 @@ inductive Fault where
   | get          -- GetByCode: storage.Get fails
   | createFail   -- CreatePortMapping: the record write or the global-list append fails
   | updCode      -- Update: the first write (by-code key) fails
-  | updId        -- Update: a later write fails (the by-code key is already written / deleted)
+  | updId        -- Update: the second write fails (the by-code key is already written / deleted)
+  | updLast      -- Update: the third write fails (only the delete branch has one: the index removal)
   | release      -- ReleaseClaim: Delete fails
 deriving DecidableEq, Repr
 
@@ -110,7 +111,7 @@ def updateRec (st : Store) (t : Thread) : Store × Bool :=
   if t.del then
     if !st.present then (st, true)                                   -- Delete: GetByID finds nothing: nil
     else if t.fault = .updCode then (st, false)
-    else if t.fault = .updId then ({ st with present := false }, false)
+    else if t.fault = .updId || t.fault = .updLast then ({ st with present := false }, false)
     else ({ st with present := false }, true)
   else
     if t.fault = .updCode then (st, false)
